@@ -15,6 +15,8 @@ SCRATCH = os.path.join(BUILD_ROOT, "scratch-C20")
 WORKERS = 8
 SAN = "hard"
 TOOL_TIMEOUT = 30
+FILE_BACKED = {"edge-block", "edge-block-plus1", "empty", "newline", "no-final-newline", "nul-in-line", "crlf", "bad-utf8-word", "long-line", "page-exact", "page-exact-no-nl",
+               "two-pages-no-nl", "gz-valid", "gz-truncated-8", "bz2-corrupt-mid", "xz-valid", "b64-empty-doc", "warc-ok", "warc-trunc-body"}
 SAN_ENV = {"ASAN_OPTIONS": "detect_leaks=0:allocator_may_return_null=1:abort_on_error=0", "UBSAN_OPTIONS": "print_stacktrace=0"}
 CRASH_SIGNALS = {4: "SIGILL", 7: "SIGBUS", 8: "SIGFPE", 11: "SIGSEGV"}
 
@@ -104,7 +106,64 @@ def stream_cases(c, decomp):
             else:
                 ops.append(rng.choice(nums + dnums))
         lines.append("ST " + " ".join(ops))
-    return lines
+    # the same scenarios on ThreadedBufferedStream (no flush there)
+    ts = ["TS" + l[2:] for l in lines if " fl" not in l] + ["TS", "TS w:8192", "TS w:16384", "TS w:8192 p", "TS p"]
+    # util::StringStream: numbers after strings of every small length (std::string growth boundaries: 15/16, 30/31 ...)
+    ss = ["SS w:%d %s p" % (n, num) for num in nums + dnums for n in list(range(0, 34)) + [62, 63, 64, 127, 128]]
+    return lines + ts + ss
+
+
+def expected_stream_bytes(ops, dtext):
+    """the bytes a sequence of stream operations produces (independent of the model)"""
+    out = bytearray()
+    for o in ops:
+        if o.startswith("w:"):
+            out += b"x" * int(o[2:])
+        elif o == "p":
+            out += b"c"
+        elif o == "fl":
+            pass
+        elif o[:4] in ("u64:", "i64:", "u32:", "i32:"):
+            out += str(int(o[4:])).encode()
+        elif o[:2] in ("d:", "f:"):
+            t = dtext.get((o[0], o.split(":")[1]))
+            if t is None:
+                return None
+            out += t.encode("latin1")
+        else:
+            return None
+    return bytes(out)
+
+
+def stream_checksum(data):
+    a, b = 1, 0
+    for ch in data:
+        a = (a + ch) % 65521
+        b = (b + a) % 65521
+    return b * 65536 + a
+
+
+def expected_stream_length(ops, dtext):
+    """total number of bytes a sequence of stream operations produces (independent of the model:
+    integers by Python's str, doubles by the text the real ToString returned for the same bits)"""
+    n = 0
+    for o in ops:
+        if o.startswith("w:"):
+            n += int(o[2:])
+        elif o == "p":
+            n += 1
+        elif o == "fl":
+            pass
+        elif o[:4] in ("u64:", "i64:", "u32:", "i32:"):
+            n += len(str(int(o[4:])))
+        elif o[:2] in ("d:", "f:"):
+            t = dtext.get((o[0], o.split(":")[1]))
+            if t is None:
+                return None
+            n += len(t)
+        else:
+            return None
+    return n
 
 
 def run_until_death(exe, lines, env=None):
@@ -155,6 +214,11 @@ def part_formatters(c, drv, kconst):
     k = {a: int(b) for a, b in km}
     kconst.update(k)
     tymap = {"U16": "u16", "I16": "i16", "U32": "u32", "I32": "i32", "U64": "u64", "I64": "i64", "P": "ptr", "B": "bool"}
+    dtext = {}
+    for l, o in zip(lines[1:], out[1:]):
+        p = l.split()
+        if p[0] == "DL" and o.startswith("OK"):
+            dtext[("d" if p[1] == "D" else "f", p[-1])] = bytes.fromhex(o.split()[1]).decode("latin1")
     # direct oracle on the real code: text is the decimal numeral, footprint within the compiled reservation
     for l, o in zip(lines[1:], out[1:]):
         p = l.split()
@@ -190,8 +254,45 @@ def part_formatters(c, drv, kconst):
                 same = False
             if not same:
                 c.violation("formatter-wrong-text: ToString(%s bits %s) = %r does not denote the value" % (p[1], p[-1], text), {"harness": "hx_tostring", "case": l, "impl": o})
-        elif p[0] == "ST":
-            c.count(l, bucket="stream/" + ("edge" if len(p) == 4 else "random"))
+        elif p[0] == "SS":
+            c.count(l, bucket="string-stream")
+            wb = expected_stream_bytes(p[1:], dtext)
+            if wb is not None and len(wb) <= 70000 and op[-1] != "sum=%d" % stream_checksum(wb):
+                c.violation("string-stream-content: util::StringStream does not hold the bytes of the operations %s (checksum %s, expected sum=%d)" % (" ".join(p[1:])[:120], op[-1], stream_checksum(wb)),
+                            {"harness": "hx_tostring", "case": l[:600], "impl": o[:300], "expected_tail_hex": wb[-40:].hex()})
+            want = expected_stream_length(p[1:], dtext)
+            if want is not None and int(op[1]) != want:
+                c.violation("string-stream-content: util::StringStream holds %s bytes after %s, the operations produce %d" % (op[1], " ".join(p[1:])[:120], want),
+                            {"harness": "hx_tostring", "case": l[:600], "impl": o[:300], "expected_length": want})
+        elif p[0] in ("ST", "TS"):
+            c.count(l, bucket=("stream/" if p[0] == "ST" else "threaded-stream/") + ("edge" if len(p) == 4 else "random"))
+            sizes = [int(x) for x in op[1:-1]]
+            wb = expected_stream_bytes(p[1:], dtext)
+            if wb is not None and len(wb) <= 70000 and op[-1] != "sum=%d" % stream_checksum(wb):
+                c.violation("stream-content: %s did not write the bytes of the operations %s (checksum %s, expected sum=%d)" % (
+                    "util::FileStream" if p[0] == "ST" else "util::ThreadedBufferedStream", " ".join(p[1:])[:120], op[-1], stream_checksum(wb)),
+                    {"harness": "hx_tostring", "case": l[:600], "impl": o[:300], "expected_tail_hex": wb[-40:].hex()})
+            want = expected_stream_length(p[1:], dtext)
+            if want is not None and sum(sizes) != want:
+                c.violation("stream-content: %s wrote %d bytes in total after %s, the operations produce %d" % (
+                    "util::FileStream" if p[0] == "ST" else "util::ThreadedBufferedStream", sum(sizes), " ".join(p[1:])[:120], want),
+                    {"harness": "hx_tostring", "case": l[:600], "impl": o[:300], "expected_length": want})
+            if p[0] == "TS" and (0 in sizes or any(x > k["block"] for x in sizes)):
+                c.violation("threaded-stream-block: ThreadedBufferedStream handed blocks of sizes %s to its writer (0 = poison, max %d)" % (sizes[:8], k["block"]),
+                            {"harness": "hx_tostring", "case": l[:600], "impl": o[:300]})
+    # the dispatch glue (FakeOStream::operator<< / Coerce): every fundamental type at its extremes through a real stream
+    rc, dout, derr = run_lines(impl, ["DISPATCH"])
+    want = ("short=-32768,32767 ushort=0,65535 int=-2147483648,2147483647 uint=0,4294967295 "
+            "long=-9223372036854775808,9223372036854775807 ulong=0,18446744073709551615 "
+            "llong=-9223372036854775808,9223372036854775807 ullong=0,18446744073709551615 size_t=0,18446744073709551615 "
+            "int16=-32768,32767 uint16=0,65535 int32=-2147483648,2147483647 uint32=0,4294967295 "
+            "int64=-9223372036854775808,9223372036854775807 uint64=0,18446744073709551615 "
+            "ptrdiff=-9223372036854775808,9223372036854775807 bool=0,1 char=A,B,C enum=-7,12 cstr=lit,str,piece "
+            "ptr=0x0,0xdeadbeef dbl=0.5,-1e300,1,-2.5e-7")
+    c.count("DISPATCH", bucket="format/dispatch")
+    if not dout or dout[0] != want:
+        c.violation("formatter-dispatch: streaming the extremes of every fundamental type gives %r, expected %r" % ((dout or ["<harness died>"])[0][:400], want[:400]),
+                    {"harness": "hx_tostring", "case": "DISPATCH", "impl": (dout or [""])[0], "expected": want})
     c.sample({"formatter_case": dl[5], "impl": out[1 + len(ints) + 5]})
     c.sample({"stream_case": st[3][:200], "impl": out[1 + len(ints) + len(dl) + 3]})
     # the same cases with exact-size heap destinations under ASan: any store beyond the reservation is reported
@@ -218,14 +319,47 @@ def generic_streams(rng, tier):
         ("tabs", b"\t\t\t\n\t\n"), ("few-fields", b"a\tb\n"), ("many-fields", b"a\tb\tc\td\te\tf\tg\th\n" * 3),
         ("long-line", b"a" * big + b"\n"), ("long-no-newline", b"b" * big), ("long-utf8", "é".encode() * (big // 2) + b"\n"),
         ("many-empty", b"\n" * 100000), ("long-spaces", b" " * 300000 + b"\n"),
+        # lines that end exactly at / one byte around util::FilePiece's read size (1052672) and twice that
+        ("edge-block-minus1", b"x" * 1052670 + b"\n" + b"tail\n"), ("edge-block", b"x" * 1052671 + b"\n" + b"tail\n"),
+        ("edge-block-plus1", b"x" * 1052672 + b"\n" + b"tail\n"), ("edge-2blocks", b"y" * (2 * 1052672 - 1) + b"\n"),
+        ("edge-block-cr", b"x" * 1052670 + b"\r\n" + b"tail"), ("edge-block-many", (b"z" * 1023 + b"\n") * 1028),
         ("astral", "a😀b 𝔘𝔫𝔦 \U0010ffff\n".encode()), ("bom", b"\xef\xbb\xbfabc\n"),
         ("gzip-magic-garbage", b"\x1f\x8b\x08\x00garbage-not-gzip\n"), ("bz-magic-garbage", b"BZh9garbage\n"), ("xz-magic-garbage", b"\xfd7zXZ\x00garbage\n"),
         ("gzip-truncated", bytes.fromhex("1f8b0800000000000003")),
     ]
+    s += [("gigaword-empty-line", b"<P>\n\n</P>\n"), ("gigaword-unclosed", b"<TEXT>\nunclosed text\nmore"), ("gigaword-angle", b"<P>\n<\n>\n<>\n< >\n</P>\n"),
+          ("gigaword-entities", b"<P>\n&amp; &lt;x&gt; &quot; &apos &amp\n(BEGIN BRACKET) x (END BRACKET) (unknown) (\n)\n</P>\n"),
+          ("gigaword-sections", b"<HEADLINE>\nabc-\ndef\n</HEADLINE>\n<DATELINE>\n</DATELINE>\n<TEXT>\n<P>\nx\n</TEXT>\n"),
+          ("page-exact", b"a" * 4095 + b"\n"), ("page-exact-no-nl", b"a" * 4096), ("two-pages-no-nl", b"ab\n" + b"c" * 8189),
+          ("giza-like", tr.GIZA * 2), ("tab-numbers", b"1\t2\t3\t4\t5\t6\n" * 5)]
+    s += compressed_streams()
     for i in range(3 if tier == "quick" else 30):
         s.append(("random-%d" % i, bytes(rng.randrange(256) for _ in range(rng.choice([1, 7, 100, 4096, 9000])))))
         s.append(("random-lines-%d" % i, b"\n".join(bytes(rng.choice(b"ab \t\xc3\xa9\xff\x00.,-") for _ in range(rng.randrange(0, 40))) for _ in range(rng.randrange(1, 30))) + b"\n"))
     return s
+
+
+def compressed_streams():
+    """inputs that take the ReadCompressed path of util::FilePiece: valid, concatenated, truncated and corrupt members"""
+    import bz2
+    import gzip
+    import lzma
+    text = b"hello world\nsecond line\n\xff\xfe bad\n"
+    gz, bz, xz = gzip.compress(text), bz2.compress(text), lzma.compress(text)
+    out = [("gz-valid", gz), ("bz2-valid", bz), ("xz-valid", xz), ("gz-concat", gz + gzip.compress(b"tail\n")), ("bz2-concat", bz + bz2.compress(b"tail\n")),
+           ("xz-concat", xz + lzma.compress(b"tail\n")), ("gz-then-plain", gz + b"plain text\n"), ("gz-then-bz2", gz + bz),
+           ("gz-long-line", gzip.compress(b"a" * (1 << 20) + b"\n")), ("gz-empty-member", gzip.compress(b"")), ("bz2-empty-member", bz2.compress(b"")),
+           ("xz-empty-member", lzma.compress(b""))]
+    for name, blob in (("gz", gz), ("bz2", bz), ("xz", xz)):
+        for cut in (3, 8, len(blob) // 2, len(blob) - 1):
+            out.append(("%s-truncated-%d" % (name, cut), blob[:cut]))
+        bad = bytearray(blob)
+        bad[len(bad) // 2] ^= 0x55
+        out.append(("%s-corrupt-mid" % name, bytes(bad)))
+        bad = bytearray(blob)
+        bad[-3] ^= 0xff
+        out.append(("%s-corrupt-trailer" % name, bytes(bad)))
+    return out
 
 
 def base64_streams(rng, tier):
@@ -309,6 +443,20 @@ def option_cases():
         T("warc_parallel", ["-j", "0", "cat"], tr.WARC1, label="warc_parallel-j-0"), T("warc_parallel", ["-j", "1", "-z", "cat"], tr.WARC1 + tr.WARC2, label="warc_parallel-z"),
         T("warc_parallel", ["-j", "2", "-i", "{W}/missing", "--", "cat"], b"", label="warc_parallel-missing-input"), T("warc_parallel", ["-j"], b"", label="warc_parallel-j-missing"),
         T("warc_parallel", ["-j", "1", "true"], tr.WARC1, label="warc_parallel-child-ignores-input"), T("warc_parallel", ["-j", "1", "sh", "-c", "cat; echo garbage"], tr.WARC1, label="warc_parallel-child-garbage"),
+        # children that die early, answer too little or too much: the wrappers' error paths
+        T("cache", ["{HX}/vchild", "1", "exit:3", "nodrain"], b"a\nb\nc\n", label="cache-child-dies-early"),
+        T("cache", ["{HX}/vchild", "0", "sig:9", "nodrain"], b"a\nb\nc\n", label="cache-child-killed-at-once"),
+        T("cache", ["{HX}/vchild", "-1", "exit:0", "drain", "3"], b"a\nb\n", label="cache-child-surplus"),
+        T("foldfilter", ["-w", "5", "{HX}/vchild", "2", "exit:0", "drain"], b"hello world, again\nx\n", label="foldfilter-child-stops-answering"),
+        T("foldfilter", ["-w", "5", "{HX}/vchild", "-1", "exit:0", "drain", "2"], b"hello world\n", label="foldfilter-child-surplus"),
+        T("foldfilter", ["-w", "5", "{HX}/vchild", "1", "sig:11", "nodrain"], b"hello world\n", label="foldfilter-child-segv"),
+        T("b64filter", ["{HX}/vchild", "1", "exit:0", "nodrain"], b"YQpiCg==\nYw==\n", label="b64filter-child-dies-early"),
+        T("b64filter", ["{HX}/vchild", "-1", "exit:0", "drain", "1"], b"YQpiCg==\n", label="b64filter-child-surplus"),
+        T("b64filter", ["tr", "-d", "\\n"], b"YQpiCg==\nYw==\n", label="b64filter-child-eats-newlines"),
+        T("warc_parallel", ["-j", "2", "{HX}/vchild", "1", "exit:1", "nodrain"], tr.WARC1 + tr.WARC2, label="warc_parallel-child-dies"),
+        # options but no command for the child
+        T("warc_parallel", ["--"], tr.WARC1, label="warc_parallel-no-command"), T("warc_parallel", ["-j", "2", "--"], tr.WARC1, label="warc_parallel-j-no-command"),
+        T("cache", ["-k", "1"], few, label="cache-no-command"), T("cache", ["-k", "1", "-t", ","], few, label="cache-no-command-2"),
         T("base64_number", ["x"], b"YQ==\n", label="base64_number-extra-arg"),
         T("mmhsum", ["x"], b"", label="mmhsum-arg"),
     ]
@@ -336,7 +484,8 @@ def stream_matrix(c):
             streams = warc + gen[:12]
         if c.tier == "quick" and base.name not in ("b64filter", "warc_parallel", "truecase", "foldfilter", "idf", "shard"):
             # quick tier: every tool sees the structural cases; the megabyte cases go to a rotating third of the tools
-            heavy = {"long-line", "long-no-newline", "long-utf8", "many-empty", "long-spaces", "b64-long"}
+            heavy = {"long-line", "long-no-newline", "long-utf8", "many-empty", "long-spaces", "b64-long", "edge-block-minus1", "edge-block", "edge-block-plus1",
+                     "edge-2blocks", "edge-block-cr", "edge-block-many", "gz-long-line"}
             import zlib
             if base.name == "cache":
                 # known deadlock on long lines (F20-6): one megabyte case keeps it visible, each costs a full timeout
@@ -345,8 +494,68 @@ def stream_matrix(c):
                 streams = [s for s in streams if s[0] not in heavy]
         for name, data in streams:
             jobs.append((tr.Tool(base.name, base.args, data, base.files, base.outputs, base.kind, base.label), name))
+        # the same bytes as a regular file on stdin: util::FilePiece then maps the file instead of reading it
+        for name, data in streams:
+            if name in FILE_BACKED:
+                jobs.append((tr.Tool(base.name, base.args, data, base.files, base.outputs, base.kind, base.label), name + "@file"))
+    # field-selecting variants on streams whose lines lack the selected fields
+    fsel = [("dedupe", ["-f", "2"], []), ("dedupe", ["-f", "1,3-", "-d", " "], []), ("shard", ["-f", "2-"], ["{W}/f1", "{W}/f2"]),
+            ("simple_cleaning", ["-f", "2", "--min-chars", "1"], []), ("cache", ["-k", "2"], ["cat"]), ("cache", ["-k", "2-3", "-t", " "], ["cat"])]
+    keep = {"few-fields", "many-fields", "tabs", "empty", "newline", "nul-in-line", "bad-utf8-word", "random-lines-0", "spaces", "crlf", "no-final-newline", "tab-numbers"}
+    for name, opts, tail in fsel:
+        for sname, data in gen:
+            if c.tier == "thorough" or sname in keep:
+                if len(data) <= 20000:
+                    jobs.append((tr.Tool(name, opts + tail, data, label="%s %s" % (name, " ".join(opts))), sname))
+    # model / alignment files made of garbage
+    for i in range(2 if c.tier == "quick" else 12):
+        junk = lambda n: bytes(rng.choice(b"ab \n\t(){}|-0123456789\xff") for _ in range(n))
+        jobs.append((tr.Tool("apply_case", ["{W}/align", "{W}/src", "{W}/tgt", "{W}/model"], b"",
+                             {"align": junk(80), "src": junk(40), "tgt": junk(40), "model": junk(60)}, label="apply_case-junk-files"), "options"))
+        jobs.append((tr.Tool("train_case", ["{W}/align", "{W}/src", "{W}/tgt"], b"", {"align": junk(120), "src": junk(40), "tgt": junk(40)}, label="train_case-junk-files"), "options"))
+        jobs.append((tr.Tool("truecase", ["--model", "{W}/model"], junk(100), {"model": junk(120)}, label="truecase-junk-model"), "options"))
+        jobs.append((tr.Tool("subtract_lines", ["{W}/sub"], junk(100), {"sub": junk(100)}, label="subtract_lines-junk"), "options"))
+        jobs.append((tr.Tool("commoncrawl_dedupe", ["{W}/rm"], junk(100), {"rm": junk(100)}, label="commoncrawl_dedupe-junk"), "options"))
     for t in option_cases():
         jobs.append((t, "options"))
+    # every option of the option-taking tools with every hostile value
+    OPTS = {
+        "dedupe": (["-f", "--fields", "-d", "--delim"], []),
+        "shard": (["-f", "-d", "--prefix", "-n", "--number", "-c", "--compress"], ["{W}/o1", "{W}/o2"]),
+        "cache": (["-k", "--key", "-t", "--field_separator"], ["cat"]),
+        "simple_cleaning": (["-f", "-d", "--min-chars", "--character-run", "--max-common-inherited", "--min-punct", "--min-punct-sample-size", "--scripts", "--min-scripts"], []),
+        "process_unicode": (["-l", "--language"], ["--flatten", "--lower"]),
+        "warc_parallel": (["-j", "--jobs", "-i"], ["--", "cat"]),
+        "foldfilter": (["-w", "-d"], ["cat"]),
+        "docenc": (["-d", ""], []),
+        "remove_long_lines": ([""], []),
+    }
+    VALUES = ["-1", "0", "1", "2", "2147483647", "2147483648", "4294967296", "18446744073709551616", "1e99", "0.5", "nan", "", "x", ",", "\t", "\xff",
+              "a" * 300, "1-", "-1-", "1,2", "2-1", "1-2-3", "Latn", "1 2"]
+    data = b"a\tb c\nd,e\tf\n" + tr.LONGLINE + b"YQ==\n" + tr.WARC1
+    n = 0
+    for name, (opts, tail) in sorted(OPTS.items()):
+        for o in opts:
+            for v in VALUES:
+                n += 1
+                if c.tier == "quick" and (n + c.seed) % 6:
+                    continue
+                if name == "shard" and o in ("-n", "--number") and ((v.isdigit() and int(v) > 300) or v == "-1"):
+                    continue          # would create millions of files ("-1" is read as 4294967295 by boost's unsigned parser: noted, not pursued)
+                if name == "warc_parallel" and o in ("-j", "--jobs") and v.isdigit() and int(v) > 64:
+                    continue          # would fork thousands of children
+                args = ([o, v] if o else [v]) + tail
+                if name == "shard" and o in ("--prefix", "-n", "--number"):
+                    args = [o, v] + (["-n", "2"] if o == "--prefix" else ["--prefix", "{W}/p"])
+                jobs.append((tr.Tool(name, args, data, label="%s-opt %s %r" % (name, o, v[:12])), "options"))
+    # command lines nobody wrote a case for: every executable with generic hostile argument vectors
+    hostile = [["--help"], ["-h"], ["--bogus"], ["-"], ["--"], [""], ["-f"], ["--fields"], ["-\xff"], ["a" * 5000], ["-f", "1", "-f", "2"], ["--", "--", "x"],
+               ["-1"], ["99999999999999999999999"], ["-d"], ["-w"], ["-j"], ["-n", "-1"], ["--number", "abc"], ["-c"], ["/nonexistent/file"], ["{W}"]]
+    if c.tier == "quick":
+        hostile = [h for i, h in enumerate(hostile) if (i + c.seed) % 2 == 0] + [["--help"], [""]]
+    for name in tr.ALL_EXECUTABLES:
+        for h in hostile:
+            jobs.append((tr.Tool(name, h, b"a b\tc\n\nYQ==\n", label=name + "-hostile-args"), "options"))
     return jobs
 
 
@@ -370,21 +579,61 @@ def classify(rc, err):
     return "ok", ""
 
 
-def part_tools(c, bindir_san, hx):
+NONDETERMINISTIC = {"warc_parallel"}     # several workers: record order depends on scheduling
+
+
+def _slurp(p):
+    try:
+        with open(p, "rb") as f:
+            return f.read()
+    except OSError:
+        return None
+
+
+def part_tools(c, bindir_san, hx, bindir_rel):
     jobs = stream_matrix(c)
 
     def work(j):
         t, sname = j
         with tr.Scratch(SCRATCH, t) as w:
             env = dict(os.environ, **SAN_ENV)
-            rc, out, err = tr.run(t.argv(bindir_san, w, hx), t.stdin, timeout=TOOL_TIMEOUT, env=env, cwd=w)
-            return j, rc, err
+            if sname.endswith("@file"):
+                p = os.path.join(w, "stdin.bin")
+                with open(p, "wb") as f:
+                    f.write(t.stdin)
+                with open(p, "rb") as f:
+                    rc, out, err = tr.run(t.argv(bindir_san, w, hx), timeout=TOOL_TIMEOUT, env=env, cwd=w, stdin_file=f)
+                return j, rc, err, None
+            else:
+                rc, out, err = tr.run(t.argv(bindir_san, w, hx), t.stdin, timeout=TOOL_TIMEOUT, env=env, cwd=w)
+                # differential run: the uninstrumented -O2 build must behave the same (a difference means the result
+                # depends on something the language leaves undefined: uninitialised data, evaluation of garbage ...)
+                if rc != "timeout" and len(t.stdin) <= 300000 and t.name not in NONDETERMINISTIC and not any("vchild" in a for a in t.args):
+                    outs_san = {o: _slurp(os.path.join(w, o)) for o in t.outputs}
+                    for o in t.outputs:
+                        try:
+                            os.unlink(os.path.join(w, o))
+                        except OSError:
+                            pass
+                    rc2, out2, err2 = tr.run(t.argv(bindir_rel, w, hx), t.stdin, timeout=TOOL_TIMEOUT, cwd=w)
+                    outs_rel = {o: _slurp(os.path.join(w, o)) for o in t.outputs}
+                    same_status = tr.status_class(rc2) == tr.status_class(rc) or (tr.status_class(rc2)[0] == "signal" and tr.status_class(rc)[0] == "signal")
+                    # what a run leaves behind after an abnormal end depends on timing (buffers, threads): compare content only for exit 0
+                    content_differs = rc == 0 and rc2 == 0 and (out2 != out or outs_rel != outs_san)
+                    if classify(rc, err)[0] == "ok" and (content_differs or not same_status):
+                        return j, rc, err, (rc2, out[:200], out2[:200])
+            return j, rc, err, None
 
     with ThreadPoolExecutor(WORKERS) as ex:
         results = list(ex.map(work, jobs))
-    for (t, sname), rc, err in results:
+    for (t, sname), rc, err, diff in results:
         kind, detail = classify(rc, err)
         c.count((t.label, sname), bucket="tool-run/%s/%s" % ("options" if sname == "options" else "stream", kind))
+        if diff is not None:
+            c.violation("build-dependent-behaviour: %s %s on input '%s': sanitizer build (-O1) gives status %s / %r, release build (-O2) status %s / %r" % (
+                t.name, " ".join(t.args[:4]), sname, rc, diff[1][:60], diff[0], diff[2][:60]),
+                {"tool": t.label, "executable": t.name, "argv": t.argv("$BIN", "$W", "$HX"), "stream": sname, "stdin_hex": hexs(t.stdin) if len(t.stdin) <= 4096 else None,
+                 "files_hex": {k_: hexs(v) for k_, v in t.files.items()}, "status": rc, "report": "outputs differ between builds", "status_release": diff[0]})
         if kind == "ok":
             continue
         small = len(t.stdin) <= 4096
@@ -394,6 +643,148 @@ def part_tools(c, bindir_san, hx):
                "how": "build flavour '%s' (ASan+UBSan+_GLIBCXX_ASSERTIONS); cd $W && %s < stdin" % (SAN, " ".join(t.argv("$BIN", "$W", "$HX")))}
         c.violation("%s: %s %s on input '%s': %s" % (kind, t.name, " ".join(t.args[:4]), sname, detail), rep)
     c.sample({"tool_run": results[0][0][0].label, "stream": results[0][0][1], "status": results[0][1]})
+
+
+VALGRIND_QUICK = {"empty", "bad-utf8-word", "nul-in-line", "no-final-newline", "gz-valid", "bz2-valid", "xz-valid", "gz-truncated-8", "b64-empty-doc", "b64-foreign",
+                  "warc-ok", "warc-trunc-body", "gigaword-entities", "astral", "few-fields"}
+
+
+def part_valgrind(c, bindir_rel, hx):
+    """uninitialised-value use is invisible to ASan: memcheck on the uninstrumented build (small inputs only)"""
+    if not shutil.which("valgrind"):
+        c.assumptions.append("valgrind not installed: no uninitialised-value detection in this run")
+        return
+    jobs = []
+    for t in tr.catalogue():
+        jobs.append((t, "catalogue"))
+    for t, sname in stream_matrix(c):
+        if len(t.stdin) > 20000 or sname.endswith("@file"):
+            continue
+        if sname == "options" and ("-opt " in t.label or "-hostile-args" in t.label):
+            # the generated option matrix is large: memcheck sees every 4th of what the sanitizer build saw
+            nopt = getattr(part_valgrind, "_n", 0) + 1
+            part_valgrind._n = nopt
+            if nopt % 4:
+                continue
+        if sname == "options" or c.tier == "thorough" or sname in VALGRIND_QUICK:
+            jobs.append((t, sname))
+
+    def work(j):
+        t, sname = j
+        with tr.Scratch(SCRATCH, t) as w:
+            argv = ["valgrind", "-q", "--error-exitcode=99", "--trace-children=no", "--child-silent-after-fork=yes"] + t.argv(bindir_rel, w, hx)
+            rc, out, err = tr.run(argv, t.stdin, timeout=120, cwd=w)
+            return j, rc, err
+
+    with ThreadPoolExecutor(WORKERS) as ex:
+        results = list(ex.map(work, jobs))
+    for (t, sname), rc, err in results:
+        lines = [l[:300] for l in err[:30000].decode("utf-8", "replace").split("\n")]
+        hits = [l for l in lines if l.startswith("==") and ("uninitialised" in l or "Invalid read" in l or "Invalid write" in l or "Invalid free" in l
+                                                            or "Mismatched free" in l or "overlap" in l)]
+        c.count(("valgrind", t.label, sname), bucket="valgrind/%s" % ("report" if (hits or rc == 99) else ("timeout" if rc == "timeout" else "clean")))
+        if hits or rc == 99:
+            small = len(t.stdin) <= 4096
+            c.violation("memcheck: %s %s on input '%s': %s" % (t.name, " ".join(t.args[:4]), sname, (hits or ["valgrind error exit"])[0]),
+                        {"tool": t.label, "executable": t.name, "argv": ["valgrind", "-q"] + t.argv("$BIN", "$W", "$HX"), "stream": sname,
+                         "stdin_hex": hexs(t.stdin) if small else None, "files_hex": {k_: hexs(v) for k_, v in t.files.items()}, "status": rc,
+                         "report": (hits or [""])[0], "stderr_tail": "\n".join(lines[:25])})
+
+
+def part_valgrind_faults(c, bindir_rel, hx):
+    """error paths are where uninitialised / freed memory gets used: memcheck while the k-th read/write/fsync/close fails
+    (libvfault, activated only inside the tool through VFAULT_ONLY so that it passes through the valgrind launcher)"""
+    if not shutil.which("valgrind"):
+        return
+    lib = os.path.join(hx, "libvfault.so")
+    tools = tr.catalogue()
+    if c.tier == "quick":
+        tools = [t for t in tools if t.kind == "wrapper" or t.label in ("remove_long_lines", "shard", "dedupe-p", "commoncrawl_dedupe", "docenc-d")]
+    jobs = []
+    for t in tools:
+        # how many calls of each kind does the fault-free run make?
+        with tr.Scratch(SCRATCH, t) as w:
+            logp = os.path.join(w, "vf.log")
+            env = dict(os.environ, LD_PRELOAD=lib, VFAULT_LOG=logp)
+            rc, out, err = tr.run(t.argv(bindir_rel, w, hx), t.stdin, timeout=30, env=env, cwd=w)
+            counts = {}
+            try:
+                for l in open(logp):
+                    op = l.split()[0]
+                    counts[op] = counts.get(op, 0) + 1
+            except FileNotFoundError:
+                pass
+        for op, n in sorted(counts.items()):
+            ks = range(1, n + 1) if c.tier == "thorough" else sorted(set([1, 2, n // 2 + 1, n]))
+            for k in ks:
+                if 1 <= k <= n:
+                    jobs.append((t, op, k))
+
+    def work(j):
+        t, op, k = j
+        with tr.Scratch(SCRATCH, t) as w:
+            env = dict(os.environ, LD_PRELOAD=lib, VFAULT_ONLY=t.name, VFAULT_OP=op, VFAULT_FD="any", VFAULT_K=str(k), VFAULT_ERRNO="5")
+            argv = ["valgrind", "-q", "--error-exitcode=99", "--trace-children=no", "--child-silent-after-fork=yes"] + t.argv(bindir_rel, w, hx)
+            rc, out, err = tr.run(argv, t.stdin, timeout=120, env=env, cwd=w)
+            return j, rc, err
+
+    with ThreadPoolExecutor(WORKERS) as ex:
+        results = list(ex.map(work, jobs))
+    for (t, op, k), rc, err in results:
+        lines = [l[:300] for l in err[:30000].decode("utf-8", "replace").split("\n")]
+        hits = [l for l in lines if l.startswith("==") and ("uninitialised" in l or "Invalid read" in l or "Invalid write" in l or "Invalid free" in l or "Mismatched free" in l)]
+        c.count(("valgrind-fault", t.label, op, k), bucket="valgrind-under-fault/%s" % ("report" if hits else ("timeout" if rc == "timeout" else "clean")))
+        if hits:
+            c.violation("memcheck-under-fault: %s while %s #%d fails with EIO: %s" % (t.name, op, k, hits[0]),
+                        {"tool": t.label, "executable": t.name, "argv": ["valgrind", "-q"] + t.argv("$BIN", "$W", "$HX"), "stdin_hex": hexs(t.stdin),
+                         "files_hex": {k_: hexs(v) for k_, v in t.files.items()}, "status": rc, "fault": {"op": op, "k": k, "errno": 5},
+                         "report": hits[0], "stderr_tail": "\n".join(lines[:30]),
+                         "how": "VFAULT_ONLY=%s VFAULT_OP=%s VFAULT_FD=any VFAULT_K=%d VFAULT_ERRNO=5 LD_PRELOAD=$HX/libvfault.so valgrind -q %s < stdin" % (
+                             t.name, op, k, " ".join(t.argv("$BIN", "$W", "$HX")))})
+        elif rc == "timeout":
+            c.violation("hang: %s under valgrind while %s #%d fails" % (t.name, op, k), {"tool": t.label, "executable": t.name, "status": rc, "fault": {"op": op, "k": k}, "report": "no termination", "stream": "fault"})
+
+
+def part_faults_sanitized(c, bindir_san, hx):
+    """the same error paths under ASan/UBSan/libstdc++ assertions: every k-th read/write/fsync/close of every catalogue run fails"""
+    lib = os.path.join(hx, "libvfault.so")
+    env0 = dict(os.environ, **SAN_ENV)
+    env0["ASAN_OPTIONS"] = env0["ASAN_OPTIONS"] + ":verify_asan_link_order=0"
+    jobs = []
+    for t in tr.catalogue():
+        with tr.Scratch(SCRATCH, t) as w:
+            logp = os.path.join(w, "vf.log")
+            rc, out, err = tr.run(t.argv(bindir_san, w, hx), t.stdin, timeout=TOOL_TIMEOUT, env=dict(env0, LD_PRELOAD=lib, VFAULT_LOG=logp), cwd=w)
+            counts = {}
+            try:
+                for l in open(logp):
+                    op = l.split()[0]
+                    counts[op] = counts.get(op, 0) + 1
+            except FileNotFoundError:
+                pass
+        for op, n in sorted(counts.items()):
+            for k in range(1, n + 1):
+                if c.tier == "thorough" or k <= 3 or k >= n - 1 or (k + c.seed) % 3 == 0:
+                    jobs.append((t, op, k, 5 if (k % 2) else 28))
+
+    def work(j):
+        t, op, k, eno = j
+        with tr.Scratch(SCRATCH, t) as w:
+            env = dict(env0, LD_PRELOAD=lib, VFAULT_OP=op, VFAULT_FD="any", VFAULT_K=str(k), VFAULT_ERRNO=str(eno))
+            rc, out, err = tr.run(t.argv(bindir_san, w, hx), t.stdin, timeout=TOOL_TIMEOUT, env=env, cwd=w)
+            return j, rc, err
+
+    with ThreadPoolExecutor(WORKERS) as ex:
+        results = list(ex.map(work, jobs))
+    for (t, op, k, eno), rc, err in results:
+        kind, detail = classify(rc, err)
+        c.count(("san-fault", t.label, op, k), bucket="sanitizer-under-fault/%s" % kind)
+        if kind != "ok":
+            c.violation("%s-under-fault: %s while %s #%d fails with errno %d: %s" % (kind, t.name, op, k, eno, detail),
+                        {"tool": t.label, "executable": t.name, "argv": t.argv("$BIN", "$W", "$HX"), "stdin_hex": hexs(t.stdin), "files_hex": {k_: hexs(v) for k_, v in t.files.items()},
+                         "status": rc, "fault": {"op": op, "k": k, "errno": eno}, "report": detail, "stream": "fault", "stderr_tail": err.decode("utf-8", "replace")[-600:],
+                         "how": "flavour '%s'; ASAN_OPTIONS=verify_asan_link_order=0 VFAULT_OP=%s VFAULT_FD=any VFAULT_K=%d VFAULT_ERRNO=%d LD_PRELOAD=$HX/libvfault.so %s < stdin" % (
+                             SAN, op, k, eno, " ".join(t.argv("$BIN", "$W", "$HX")))})
 
 
 def main(argv):
@@ -410,8 +801,19 @@ def main(argv):
     if drv is None:
         c.broken.append("extraction/driver build failed: " + dlog[-600:])
     kconst = {}
-    part_formatters(c, drv, kconst)
-    part_tools(c, os.path.dirname(repo_bin("x", SAN)), os.path.dirname(hx_bin("x")))
+    phases = {}
+    for name, fn in (("formatters+streams", lambda: part_formatters(c, drv, kconst)),
+                     ("sanitizer sampling", lambda: part_tools(c, os.path.dirname(repo_bin("x", SAN)), os.path.dirname(hx_bin("x")), os.path.dirname(repo_bin("x")))),
+                     ("sanitizer under faults", lambda: part_faults_sanitized(c, os.path.dirname(repo_bin("x", SAN)), os.path.dirname(hx_bin("x")))),
+                     ("memcheck", lambda: part_valgrind(c, os.path.dirname(repo_bin("x")), os.path.dirname(hx_bin("x")))),
+                     ("memcheck under faults", lambda: part_valgrind_faults(c, os.path.dirname(repo_bin("x")), os.path.dirname(hx_bin("x"))))):
+        t0 = time.time()
+        fn()
+        phases[name] = round(time.time() - t0, 1)
+    c.cov["phase_seconds"] = phases
+    log("  phases: %s" % phases)
+    if c.tier == "thorough":
+        coqchk(c)
     shutil.rmtree(SCRATCH, ignore_errors=True)
     if os.environ.get("VERIF_DEBUG"):
         for what, obj, found in c.violations:
@@ -425,7 +827,7 @@ def main(argv):
         assumptions=["x86-64 build (SSE2 branch of integer_to_string.cc, 8-byte pointers)",
                      "DoubleToAscii delivers 1..17 (float: 1..9) decimal digits and a decimal point position in [-323, 309] (float: [-44, 39]); checked on every sampled value",
                      "sanitizer runs are sampling: out-of-bounds accesses, use-after-free or uninitialised reads in code paths not exercised by the generated inputs, and anything inside libstdc++/ICU/zlib/bzip2/liblzma, are outside the proof",
-                     "uninitialised-value reads are only seen when they crash or trip ASan (no MemorySanitizer / valgrind run in the quick tier)"])
+                     "uninitialised-value use is looked for with valgrind memcheck on the uninstrumented build, small inputs only (quick: every executable on its catalogue input + 15 stream classes + all option cases; thorough: every small stream)"])
 
 
 if __name__ == "__main__":
